@@ -144,7 +144,7 @@ func (ex *Exec) blockUntil(pred func() bool, what string) {
 		if len(rs) == 0 {
 			ex.deadlock()
 		}
-		i := ex.choose(len(rs), "blocked: next goroutine")
+		i := ex.schedChoose(len(rs), "blocked: next goroutine")
 		ex.switchTo(rs[i])
 		me.state, me.pred = gRunnable, nil
 	}
@@ -161,6 +161,21 @@ func (ex *Exec) deadlock() {
 	ex.ps.deadlocked = true
 	ex.ps.deadlockDesc = desc
 	panic(pathAbort{abortDeadlock, "deadlock: all goroutines blocked:" + desc})
+}
+
+// schedChoose: which runnable goroutine continues when the current one cannot
+// (blocked, finished, quiescing). All orders are explored for the first
+// SchedForkBound such choices of a path; later ones take the lowest id
+// (stated bound; see DESIGN.md).
+func (ex *Exec) schedChoose(n int, why string) int {
+	if n <= 1 {
+		return 0
+	}
+	if ex.ps.schedForks >= ex.SchedForkBound {
+		return 0
+	}
+	ex.ps.schedForks++
+	return ex.choose(n, why)
 }
 
 // preemptPoint lets the scheduler switch away from a runnable goroutine at
@@ -191,7 +206,7 @@ func (ex *Exec) quiesce() {
 		if len(rs) == 0 {
 			return
 		}
-		i := ex.choose(len(rs), "quiesce: next goroutine")
+		i := ex.schedChoose(len(rs), "quiesce: next goroutine")
 		ex.switchTo(rs[i])
 	}
 }
@@ -254,7 +269,7 @@ func (ex *Exec) handOff() {
 				panic(p)
 			}
 		}()
-		i = ex.choose(len(rs), "exit: next goroutine")
+		i = ex.schedChoose(len(rs), "exit: next goroutine")
 	}()
 	if i < 0 {
 		return
